@@ -8,7 +8,15 @@
     The equational [chop]-commutations are corollaries ([D := firstn k (lines b)]).
 
     The flag [tr]: when [true], the relation also demands equal [trim_needed] / [dirty]
-    (needed to recover EQUATIONS and for C14); when [false] they are ignored (C12). *)
+    (needed to recover EQUATIONS and for C14); when [false] they are ignored (C12).
+    The flag [cl]: when [true], the INACTIVE screen's saved context [asctx] is compared only
+    after clamping into the screen while the primary screen is active (C11, Proofs/Future.v).
+
+    Second version: the side condition on the parked buffer is [parked_ok] ("no resize while
+    the PRIMARY was parked"); the parked ALTERNATE buffer is never read by any control
+    function (it is replaced by a fresh buffer in [switch_to_alternate_buffer], and
+    [term_gc] only touches the active buffer) - [execute_Rx] proves this, since with
+    [tr = false] the relation [Rx] says nothing at all about it. *)
 
 From Avt Require Import Proofs.Inv Proofs.VisEq Proofs.ListLemmas Proofs.BufRow Proofs.BufScroll
   Proofs.Resize Proofs.ParamDT Spec.Eqb Oracles.Rel.
@@ -301,6 +309,13 @@ Proof.
     rewrite G1, G2. cbn [guard bind]. constructor.
 Qed.
 
+Lemma RBg_chop_inv' b1 b2 : RBg b1 b2 -> l1 = l2 -> tr = true -> b2 = chop (length D) b1.
+Proof.
+  intros [H1 H2 H3 H4 H5 H6 H7 H8 H9] El Et. specialize (H9 Et).
+  unfold chop. destruct b1, b2. cbn in *. subst.
+  rewrite skipn_app, skipn_all2, Nat.sub_diag by lia. reflexivity.
+Qed.
+
 End Buffers.
 
 Lemma buffer_new_G tr c r l1 l2 p :
@@ -472,8 +487,95 @@ Definition bt_other (w : btype) : btype :=
 Definition Dsel (Dp Da : list line) (w : btype) : list line :=
   match w with Primary => Dp | Alternate => Da end.
 
+(** ** [reflow] reads the saved context only to clamp it *)
+
+Definition rtail (t : term) : term :=
+  let t := if cols t <=? sc_col (sctx t) then t <| sctx := (sctx t) <| sc_col := cols t - 1 |> |> else t in
+  if rows t <=? sc_row (sctx t) then t <| sctx := (sctx t) <| sc_row := rows t - 1 |> |> else t.
+
+Lemma clamp_ctx_eq x c r :
+  clamp_ctx x c r = mkCtx (Nat.min (sc_col x) (c - 1)) (Nat.min (sc_row x) (r - 1)) (sc_pen x) (sc_origin x) (sc_awm x).
+Proof. destruct x; reflexivity. Qed.
+
+Lemma set_sctx_eq (t : term) x y : x = y -> t <| sctx := x |> = t <| sctx := y |>.
+Proof. intros ->. reflexivity. Qed.
+
+Lemma set_sctx_id (t : term) : t <| sctx := sctx t |> = t.
+Proof. destruct t; reflexivity. Qed.
+
+Lemma set_sctx_twice (t : term) x y : t <| sctx := x |> <| sctx := y |> = t <| sctx := y |>.
+Proof. destruct t; reflexivity. Qed.
+
+Lemma rtail_clamp t : rtail t = t <| sctx := clamp_ctx (sctx t) (cols t) (rows t) |>.
+Proof.
+  unfold rtail. rewrite clamp_ctx_eq.
+  assert (Hfin : forall x, x = mkCtx (Nat.min (sc_col (sctx t)) (cols t - 1)) (Nat.min (sc_row (sctx t)) (rows t - 1))
+                                 (sc_pen (sctx t)) (sc_origin (sctx t)) (sc_awm (sctx t)) ->
+                 t <| sctx := x |> = t <| sctx := mkCtx (Nat.min (sc_col (sctx t)) (cols t - 1)) (Nat.min (sc_row (sctx t)) (rows t - 1))
+                                 (sc_pen (sctx t)) (sc_origin (sctx t)) (sc_awm (sctx t)) |>).
+  { intros x ->. reflexivity. }
+  destruct (Nat.leb_spec (cols t) (sc_col (sctx t))) as [H1|H1]; psimpl;
+    destruct (Nat.leb_spec (rows t) (sc_row (sctx t))) as [H2|H2]; psimpl.
+  - rewrite set_sctx_twice. apply Hfin.
+    destruct (sctx t) as [sc sr sp so sa]. cbn [sc_col sc_row sc_pen sc_origin sc_awm] in *.
+    unfold set; cbn [sc_col sc_row sc_pen sc_origin sc_awm]. f_equal; lia.
+  - apply Hfin.
+    destruct (sctx t) as [sc sr sp so sa]. cbn [sc_col sc_row sc_pen sc_origin sc_awm] in *.
+    unfold set; cbn [sc_col sc_row sc_pen sc_origin sc_awm]. f_equal; lia.
+  - apply Hfin.
+    destruct (sctx t) as [sc sr sp so sa]. cbn [sc_col sc_row sc_pen sc_origin sc_awm] in *.
+    unfold set; cbn [sc_col sc_row sc_pen sc_origin sc_awm]. f_equal; lia.
+  - rewrite <- (set_sctx_id t) at 1. apply Hfin.
+    destruct (sctx t) as [sc sr sp so sa]. cbn [sc_col sc_row sc_pen sc_origin sc_awm] in *.
+    f_equal; lia.
+Qed.
+
+Definition reflow_head (t : term) : res term :=
+  let t := if negb (cols t =? bcols (buf t)) then t <| pend := false |> else t in
+  '(b, (c, r)) <- buf_resize (buf t) (cols t) (rows t) (cur_col t) (cur_row t) ;;
+  let t := t <| buf := b |> <| cur_col := c |> <| cur_row := r |> in
+  let t := t <| dirty := dirty_resize (dirty t) (rows t) |> in
+  mark_range t 0 (rows t).
+
+Lemma reflow_split t : reflow t = (t1 <- reflow_head t ;; Ok (rtail t1)).
+Proof.
+  unfold reflow, reflow_head.
+  set (t0 := if negb (cols t =? bcols (buf t)) then t <| pend := false |> else t). clearbody t0.
+  destruct (buf_resize (buf t0) (cols t0) (rows t0) (cur_col t0) (cur_row t0)) as [[b [c r]]|e];
+    cbn [bind]; [|reflexivity].
+  match goal with |- context [mark_range ?x ?y ?z] => destruct (mark_range x y z) as [t1|e] end;
+    cbn [bind]; reflexivity.
+Qed.
+
+Lemma reflow_head_sctx t s :
+  reflow_head (t <| sctx := s |>) = fmap (fun t' => t' <| sctx := s |>) (reflow_head t)
+  /\ (forall t1, reflow_head t = Ok t1 -> cols t1 = cols t /\ rows t1 = rows t).
+Proof.
+  unfold reflow_head. psimpl.
+  destruct (negb (cols t =? bcols (buf t))); psimpl;
+  (destruct (buf_resize (buf t) (cols t) (rows t) (cur_col t) (cur_row t)) as [[b [c r]]|e];
+    cbn [bind fmap]; [|split; [reflexivity|discriminate]]);
+  psimpl; unfold mark_range; psimpl;
+  (match goal with |- context [dirty_extend ?d ?x ?y] => destruct (dirty_extend d x y) as [d'|e] end;
+    cbn [bind fmap]; [|split; [reflexivity|discriminate]]);
+  (split; [f_equal; destruct t; reflexivity|intros t1 E; injection E as <-; split; reflexivity]).
+Qed.
+
+Lemma reflow_sctx t s :
+  reflow (t <| sctx := s |>)
+  = fmap (fun t' => t' <| sctx := clamp_ctx s (cols t) (rows t) |>) (reflow t).
+Proof.
+  rewrite !reflow_split. destruct (reflow_head_sctx t s) as [E HC]. rewrite E.
+  destruct (reflow_head t) as [t1|e]; cbn [bind fmap]; [|reflexivity].
+  destruct (HC t1 eq_refl) as [Hc Hr]. rewrite !rtail_clamp. psimpl. rewrite Hc, Hr.
+  f_equal; try (destruct t1; reflexivity).
+Qed.
+
+Lemma set_sctx_split (t : term) K : t = (t <| sctx := K |>) <| sctx := sctx t |>.
+Proof. destruct t; reflexivity. Qed.
+
 Section Terms.
-Variable tr : bool.
+Variables (tr cl : bool).   (* [cl]: compare the inactive saved context only after clamping *)
 Variables (L1 L2 : option N).   (* the configured scrollback limits of the two terminals *)
 
 (** [Rx Dp Da a b]: [a] carries the extra prefix [Dp] above the view of its primary buffer
@@ -485,9 +587,16 @@ Record Rx (Dp Da : list line) (a b : term) : Prop := mkRx {
   x_rows : rows a = rows b;
   x_buf : RBg tr (cols a) (rows a) (lim_sel (sb_limit a) (active a)) (lim_sel (sb_limit b) (active a))
               (Dsel Dp Da (active a)) (buf a) (buf b);
-  x_other : RBg tr (cols a) (rows a) (lim_sel (sb_limit a) (bt_other (active a)))
-                (lim_sel (sb_limit b) (bt_other (active a)))
-                (Dsel Dp Da (bt_other (active a))) (other a) (other b);
+  (* the parked buffer: the parked PRIMARY is related like the active buffer; the parked
+     ALTERNATE is never read (it is replaced by a fresh buffer on the next entry), so nothing
+     is required of it - except, for the equational corollaries ([tr = true]), that it is the
+     chopped copy *)
+  x_other : match active a with
+            | Primary => tr = true ->
+                         other b = chop (length Da) (other a) /\ length Da <= sb_len (other a)
+            | Alternate => RBg tr (cols a) (rows a) (limit_of (sb_limit a)) (limit_of (sb_limit b))
+                               Dp (other a) (other b)
+            end;
   x_active : active a = active b;
   x_sl1 : sb_limit a = L1;
   x_sl2 : sb_limit b = L2;
@@ -508,7 +617,13 @@ Record Rx (Dp Da : list line) (a b : term) : Prop := mkRx {
   x_top : top a = top b;
   x_bot : bot a = bot b;
   x_sctx : sctx a = sctx b;
-  x_asctx : asctx a = asctx b;
+  (* the inactive screen's saved context: while the primary screen is active the alternate's
+     saved context is only ever read through [switch_to_alternate_buffer ;; reflow], which
+     clamps it - with [cl = true] only the clamped values have to agree *)
+  x_asctx : match cl, active a with
+            | true, Primary => clamp_ctx (asctx a) (cols a) (rows a) = clamp_ctx (asctx b) (cols a) (rows a)
+            | _, _ => asctx a = asctx b
+            end;
   x_dirty_len : length (dirty a) = length (dirty b);
   x_dirty : leq tr (dirty a) (dirty b);
   x_xtw : xtw a = xtw b;
@@ -535,7 +650,7 @@ Ltac rx_rw H :=
     <- ?(x_tpen _ _ _ _ H), <- ?(x_cs0 _ _ _ _ H), <- ?(x_cs1 _ _ _ _ H), <- ?(x_acs _ _ _ _ H),
     <- ?(x_tabs _ _ _ _ H), <- ?(x_ins _ _ _ _ H), <- ?(x_org _ _ _ _ H), <- ?(x_awm _ _ _ _ H),
     <- ?(x_nlm _ _ _ _ H), <- ?(x_ckm _ _ _ _ H), <- ?(x_pend _ _ _ _ H), <- ?(x_top _ _ _ _ H),
-    <- ?(x_bot _ _ _ _ H), <- ?(x_sctx _ _ _ _ H), <- ?(x_asctx _ _ _ _ H), <- ?(x_xtw _ _ _ _ H).
+    <- ?(x_bot _ _ _ _ H), <- ?(x_sctx _ _ _ _ H), <- ?(x_xtw _ _ _ _ H).
 
 Ltac rx_close H :=
   constructor; psimpl; rx_rw H;
@@ -618,7 +733,8 @@ Lemma hard_R a b : R a b -> Rx [] [] (hard_reset_gen a) (hard_reset_gen b).
 Proof.
   intros H. unfold hard_reset_gen. pure_tac H.
   - apply buffer_new_G.
-  - apply (buffer_new_G tr (cols a) (rows a) (Some 0%N) (Some 0%N)).
+  - intros _. cbn [length]. rewrite chop_0. split; [reflexivity|lia].
+  - destruct cl; reflexivity.
 Qed.
 
 Lemma decstbm_R a b tp bt : R a b -> R (decstbm a tp bt) (decstbm b tp bt).
@@ -904,21 +1020,55 @@ Ltac upd_close H := constructor; psimpl; first [apply H | apply leq_refl | refle
 
 Ltac rx_rw2 H :=
   rewrite <- ?(x_cols _ _ _ _ H), <- ?(x_rows _ _ _ _ H), <- ?(x_active _ _ _ _ H),
-    <- ?(x_tpen _ _ _ _ H), <- ?(x_sctx _ _ _ _ H), <- ?(x_asctx _ _ _ _ H).
+    <- ?(x_tpen _ _ _ _ H), <- ?(x_sctx _ _ _ _ H).
+
+(** relation between a buffer switch and the [reflow] that follows it: everything related,
+    except that the two [sctx] (the just-activated screen's saved context) agree only after
+    clamping *)
+Definition Rsw (Dp Da : list line) (x y : term) : Prop :=
+  clamp_ctx (sctx x) (cols x) (rows x) = clamp_ctx (sctx y) (cols x) (rows x)
+  /\ Rx Dp Da (x <| sctx := default_ctx |>) (y <| sctx := default_ctx |>).
+
+Lemma Rsw_of Dp Da a b : Rx Dp Da a b -> Rsw Dp Da a b.
+Proof.
+  intros H. split; [rewrite (x_sctx _ _ _ _ H); reflexivity|]. upd_close H.
+Qed.
+
+Lemma reflow_Rsw Dp Da x y : Rsw Dp Da x y -> rres (Rx Dp Da) (reflow x) (reflow y).
+Proof.
+  intros [Hc H].
+  replace (reflow x) with (reflow ((x <| sctx := default_ctx |>) <| sctx := sctx x |>))
+    by (rewrite <- set_sctx_split; reflexivity).
+  replace (reflow y) with (reflow ((y <| sctx := default_ctx |>) <| sctx := sctx y |>))
+    by (rewrite <- set_sctx_split; reflexivity).
+  rewrite (reflow_sctx (x <| sctx := default_ctx |>) (sctx x)),
+    (reflow_sctx (y <| sctx := default_ctx |>) (sctx y)). psimpl.
+  pose proof (x_cols _ _ _ _ H) as Hc1. pose proof (x_rows _ _ _ _ H) as Hr1.
+  psimpl_in Hc1. psimpl_in Hr1. rewrite <- Hc1, <- Hr1, <- Hc.
+  pose proof (reflow_R _ _ _ _ H) as HR.
+  destruct HR as [x' y' Hxy|e]; cbn [fmap]; constructor. upd_close Hxy.
+Qed.
 
 Lemma switch_alt_R Dp Da a b :
   Rx Dp Da a b ->
-  rres (Rx Dp (match active a with Primary => [] | Alternate => Da end))
+  rres (Rsw Dp (match active a with Primary => [] | Alternate => Da end))
        (switch_to_alternate_buffer a) (switch_to_alternate_buffer b).
 Proof.
   intros H. unfold switch_to_alternate_buffer. rewrite <- (x_active _ _ _ _ H).
-  destruct (active a) eqn:EA; [|constructor; exact H].
+  destruct (active a) eqn:EA; [|constructor; apply Rsw_of; exact H].
   pose proof (x_buf _ _ _ _ H) as Hb. rewrite EA in Hb. cbn [lim_sel Dsel] in Hb.
-  psimpl. rx_rw2 H. apply mark_range_R.
-  constructor; psimpl; rx_rw2 H; try apply H; try apply leq_refl; try reflexivity.
-  - cbn [lim_sel Dsel].
-    apply (buffer_new_G tr (cols a) (rows a) (Some 0%N) (Some 0%N)).
-  - cbn [lim_sel Dsel bt_other]. exact Hb.
+  pose proof (x_asctx _ _ _ _ H) as Hs. rewrite EA in Hs.
+  unfold mark_range, dirty_extend. psimpl. rx_rw2 H. rewrite <- (x_dirty_len _ _ _ _ H).
+  destruct ((0 <=? rows a) && (rows a <=? length (dirty a))) eqn:E; cbn [bind]; constructor.
+  split.
+  - psimpl. destruct cl; [exact Hs|rewrite Hs; reflexivity].
+  - constructor; psimpl; rx_rw2 H; try apply H; try apply leq_refl; try reflexivity.
+    + cbn [lim_sel Dsel].
+      apply (buffer_new_G tr (cols a) (rows a) (Some 0%N) (Some 0%N)).
+    + exact Hb.
+    + destruct cl; reflexivity.
+    + rewrite !fill_range_len; try lia. apply H. rewrite <- (x_dirty_len _ _ _ _ H). lia.
+    + intros Et. rewrite (x_dirty _ _ _ _ H Et). reflexivity.
 Qed.
 
 Lemma switch_prim_R Dp Da a b :
@@ -928,11 +1078,16 @@ Proof.
   intros H. unfold switch_to_primary_buffer. rewrite <- (x_active _ _ _ _ H).
   destruct (active a) eqn:EA; [constructor; exact H|].
   pose proof (x_buf _ _ _ _ H) as Hb. pose proof (x_other _ _ _ _ H) as Ho.
-  rewrite EA in Hb, Ho. cbn [lim_sel Dsel bt_other] in Hb, Ho.
+  pose proof (x_asctx _ _ _ _ H) as Hs.
+  rewrite EA in Hb, Ho, Hs. cbn [lim_sel Dsel] in Hb, Ho.
+  assert (Hs' : asctx a = asctx b) by (destruct cl; exact Hs).
   psimpl. rx_rw2 H. apply mark_range_R.
   constructor; psimpl; rx_rw2 H; try apply H; try apply leq_refl; try reflexivity.
   - cbn [lim_sel Dsel]. exact Ho.
-  - cbn [lim_sel Dsel bt_other]. exact Hb.
+  - intros Et. split; [eapply RBg_chop_inv'; [exact Hb|reflexivity|exact Et]|].
+    exact (g_len _ _ _ _ _ _ _ _ Hb).
+  - exact Hs'.
+  - destruct cl; reflexivity.
 Qed.
 
 (** post-relation of a control function: the primary prefix stays, the alternate prefix may
@@ -951,9 +1106,9 @@ Proof.
             rres (Rpost Dp Da) (t <- switch_to_alternate_buffer a ;; reflow t)
                                (t <- switch_to_alternate_buffer b ;; reflow t)).
   { clear a b H. intros a b H.
-    apply (rres_bind (Rx Dp (match active a with Primary => [] | Alternate => Da end)));
+    apply (rres_bind (Rsw Dp (match active a with Primary => [] | Alternate => Da end)));
       [apply switch_alt_R; exact H|].
-    intros x y Hxy. eapply rres_impl; [|apply reflow_R; exact Hxy].
+    intros x y Hxy. eapply rres_impl; [|apply reflow_Rsw; exact Hxy].
     intros x' y' Hxy'. exists (match active a with Primary => [] | Alternate => Da end).
     split; [|exact Hxy']. destruct (active a); auto. }
   destruct m; cbn [decset_one].
@@ -1059,31 +1214,31 @@ End Terms.
 
 (** * 5. [vt_feed], [feed_chars] *)
 
-Definition Rvx tr L1 L2 Dp Da (v w : vt) : Prop :=
-  vparser v = vparser w /\ Rx tr L1 L2 Dp Da (vterm v) (vterm w).
+Definition Rvx tr cl L1 L2 Dp Da (v w : vt) : Prop :=
+  vparser v = vparser w /\ Rx tr cl L1 L2 Dp Da (vterm v) (vterm w).
 
 (** does feeding [c] make the parser emit [Ris]? *)
 Definition ris_at (v : vt) (c : N) : bool :=
   match feedM (vparser v) c with Ok (_, Some Ris) => true | _ => false end.
 
-Lemma vt_feed_Rx tr L1 L2 Dp Da v w c :
-  Rvx tr L1 L2 Dp Da v w ->
+Lemma vt_feed_Rx tr cl L1 L2 Dp Da v w c :
+  Rvx tr cl L1 L2 Dp Da v w ->
   rres (fun v' w' => exists Da', (Da = [] -> Da' = [])
-                      /\ Rvx tr L1 L2 (if ris_at v c then [] else Dp) Da' v' w')
+                      /\ Rvx tr cl L1 L2 (if ris_at v c then [] else Dp) Da' v' w')
        (vt_feed v c) (vt_feed w c).
 Proof.
   intros [Hp Ht]. unfold vt_feed, ris_at. rewrite <- Hp.
   destruct (feedM (vparser v) c) as [[p [f|]]|s]; cbn [bind]; [| |constructor].
-  - apply (rres_bind (Rpost tr L1 L2 (if is_ris f then [] else Dp) Da)); [apply execute_Rx; exact Ht|].
+  - apply (rres_bind (Rpost tr cl L1 L2 (if is_ris f then [] else Dp) Da)); [apply execute_Rx; exact Ht|].
     intros x y (Da' & HDa & Hxy). constructor. exists Da'. split; [exact HDa|].
     split; [reflexivity|]. destruct f; exact Hxy.
   - constructor. exists Da. split; [auto|]. split; [reflexivity|exact Ht].
 Qed.
 
 (** with an empty primary prefix, [Ris] is harmless *)
-Lemma feed_chars_Rx0 tr L1 L2 s : forall Da v w,
-  Rvx tr L1 L2 [] Da v w ->
-  rres (fun v' w' => exists Da', Rvx tr L1 L2 [] Da' v' w') (feed_chars v s) (feed_chars w s).
+Lemma feed_chars_Rx0 tr cl L1 L2 s : forall Da v w,
+  Rvx tr cl L1 L2 [] Da v w ->
+  rres (fun v' w' => exists Da', Rvx tr cl L1 L2 [] Da' v' w') (feed_chars v s) (feed_chars w s).
 Proof.
   induction s as [|c s IH]; intros Da v w H; cbn [feed_chars]; [constructor; exists Da; exact H|].
   eapply rres_bind; [apply vt_feed_Rx; exact H|].
@@ -1097,13 +1252,13 @@ Fixpoint ris_free (v : vt) (s : list N) : Prop :=
   | c :: r => ris_at v c = false /\ (forall v', vt_feed v c = Ok v' -> ris_free v' r)
   end.
 
-Lemma feed_chars_Rx_nr tr L1 L2 Dp s : forall v w,
-  Rvx tr L1 L2 Dp [] v w -> ris_free v s ->
-  rres (Rvx tr L1 L2 Dp []) (feed_chars v s) (feed_chars w s).
+Lemma feed_chars_Rx_nr tr cl L1 L2 Dp s : forall v w,
+  Rvx tr cl L1 L2 Dp [] v w -> ris_free v s ->
+  rres (Rvx tr cl L1 L2 Dp []) (feed_chars v s) (feed_chars w s).
 Proof.
   induction s as [|c s IH]; intros v w H HF; cbn [feed_chars]; [constructor; exact H|].
   destruct HF as [Hc HF].
-  pose proof (vt_feed_Rx _ _ _ _ _ _ _ c H) as HR. rewrite Hc in HR.
+  pose proof (vt_feed_Rx _ _ _ _ _ _ _ _ c H) as HR. rewrite Hc in HR.
   remember (vt_feed v c) as m1 eqn:E1. symmetry in E1.
   destruct HR as [x y (Da' & HDa & Hxy)|s']; cbn [bind]; [|constructor].
   rewrite (HDa eq_refl) in Hxy. apply IH; [exact Hxy|]. apply HF. reflexivity.
@@ -1208,15 +1363,15 @@ Proof. unfold dirty_clear. apply repeat_length. Qed.
 
 (** C14: both terminals flush; the left one has unlimited scrollback *)
 Lemma flush_C14 L2 Dp a b :
-  Rx true None L2 Dp [] a b ->
-  Rx true None L2
+  Rx true false None L2 Dp [] a b ->
+  Rx true false None L2
      (Dp ++ match active a with
             | Primary => firstn (gc_excess (buf b)) (lines (buf b))
             | Alternate => []
             end) [] (flushed a) (flushed b).
 Proof.
-  intros H. pose proof (x_buf _ _ _ _ _ _ _ H) as Hb. pose proof (x_other _ _ _ _ _ _ _ H) as Ho.
-  pose proof (x_sl1 _ _ _ _ _ _ _ H) as Hs1.
+  intros H. pose proof (x_buf _ _ _ _ _ _ _ _ H) as Hb. pose proof (x_other _ _ _ _ _ _ _ _ H) as Ho.
+  pose proof (x_sl1 _ _ _ _ _ _ _ _ H) as Hs1.
   unfold flushed. destruct (active a) eqn:EA.
   - cbn [lim_sel Dsel bt_other] in Hb, Ho.
     assert (E0 : gc_excess (buf a) = 0).
@@ -1226,7 +1381,7 @@ Proof.
     + apply RBg_gc_l0; [exact Hb|apply gc_excess_le].
     + exact Ho.
     + rewrite !dirty_clear_len. apply H.
-    + intros _. unfold dirty_clear. rewrite (x_dirty_len _ _ _ _ _ _ _ H). reflexivity.
+    + intros _. unfold dirty_clear. rewrite (x_dirty_len _ _ _ _ _ _ _ _ H). reflexivity.
   - cbn [lim_sel Dsel bt_other] in Hb, Ho. rewrite app_nil_r.
     pose proof (RBg_nil_eq _ _ _ _ _ _ eq_refl Hb) as Eb.
     constructor; psimpl; try apply H; try rewrite EA; cbn [lim_sel Dsel bt_other].
@@ -1234,15 +1389,15 @@ Proof.
       destruct Hb. unfold sb_len in *. constructor; psimpl; try assumption; try apply leq_refl.
       all: try reflexivity; try (cbn [length]; lia); try congruence.
     + rewrite !dirty_clear_len. apply H.
-    + intros _. unfold dirty_clear. rewrite (x_dirty_len _ _ _ _ _ _ _ H). reflexivity.
+    + intros _. unfold dirty_clear. rewrite (x_dirty_len _ _ _ _ _ _ _ _ H). reflexivity.
 Qed.
 
 (** C12: only the right-hand terminal flushes; both unlimited *)
 Lemma flush_right_C12 Da a b :
-  Rx false None None [] Da a b -> exists Da', Rx false None None [] Da' a (flushed b).
+  Rx false false None None [] Da a b -> exists Da', Rx false false None None [] Da' a (flushed b).
 Proof.
-  intros H. pose proof (x_buf _ _ _ _ _ _ _ H) as Hb. pose proof (x_other _ _ _ _ _ _ _ H) as Ho.
-  pose proof (x_sl2 _ _ _ _ _ _ _ H) as Hs2. pose proof (gc_excess_le (buf b)) as Hle.
+  intros H. pose proof (x_buf _ _ _ _ _ _ _ _ H) as Hb. pose proof (x_other _ _ _ _ _ _ _ _ H) as Ho.
+  pose proof (x_sl2 _ _ _ _ _ _ _ _ H) as Hs2. pose proof (gc_excess_le (buf b)) as Hle.
   unfold flushed. destruct (active a) eqn:EA; cbn [lim_sel Dsel bt_other] in Hb, Ho.
   - exists Da.
     assert (E0 : gc_excess (buf b) = 0).
@@ -1276,17 +1431,17 @@ Record Robs (a b : term) : Prop := mkRobs {
   o_lines : active a = Primary -> lines (buf a) = lines (buf b)
 }.
 
-Lemma Rx_scal tr L1 L2 Dp Da a b : L1 = L2 -> Rx tr L1 L2 Dp Da a b -> scal a = scal b.
+Lemma Rx_scal tr L1 L2 Dp Da a b : L1 = L2 -> Rx tr false L1 L2 Dp Da a b -> scal a = scal b.
 Proof.
   intros EL H. unfold scal.
-  rewrite <- (x_cols _ _ _ _ _ _ _ H), <- (x_rows _ _ _ _ _ _ _ H), <- (x_active _ _ _ _ _ _ _ H),
-    <- (x_cur_col _ _ _ _ _ _ _ H), <- (x_cur_row _ _ _ _ _ _ _ H), <- (x_cur_vis _ _ _ _ _ _ _ H),
-    <- (x_tpen _ _ _ _ _ _ _ H), <- (x_cs0 _ _ _ _ _ _ _ H), <- (x_cs1 _ _ _ _ _ _ _ H),
-    <- (x_acs _ _ _ _ _ _ _ H), <- (x_tabs _ _ _ _ _ _ _ H), <- (x_ins _ _ _ _ _ _ _ H),
-    <- (x_org _ _ _ _ _ _ _ H), <- (x_awm _ _ _ _ _ _ _ H), <- (x_nlm _ _ _ _ _ _ _ H),
-    <- (x_ckm _ _ _ _ _ _ _ H), <- (x_pend _ _ _ _ _ _ _ H), <- (x_top _ _ _ _ _ _ _ H),
-    <- (x_bot _ _ _ _ _ _ _ H), <- (x_sctx _ _ _ _ _ _ _ H), <- (x_asctx _ _ _ _ _ _ _ H),
-    <- (x_xtw _ _ _ _ _ _ _ H), (x_sl1 _ _ _ _ _ _ _ H), (x_sl2 _ _ _ _ _ _ _ H), EL.
+  rewrite <- (x_cols _ _ _ _ _ _ _ _ H), <- (x_rows _ _ _ _ _ _ _ _ H), <- (x_active _ _ _ _ _ _ _ _ H),
+    <- (x_cur_col _ _ _ _ _ _ _ _ H), <- (x_cur_row _ _ _ _ _ _ _ _ H), <- (x_cur_vis _ _ _ _ _ _ _ _ H),
+    <- (x_tpen _ _ _ _ _ _ _ _ H), <- (x_cs0 _ _ _ _ _ _ _ _ H), <- (x_cs1 _ _ _ _ _ _ _ _ H),
+    <- (x_acs _ _ _ _ _ _ _ _ H), <- (x_tabs _ _ _ _ _ _ _ _ H), <- (x_ins _ _ _ _ _ _ _ _ H),
+    <- (x_org _ _ _ _ _ _ _ _ H), <- (x_awm _ _ _ _ _ _ _ _ H), <- (x_nlm _ _ _ _ _ _ _ _ H),
+    <- (x_ckm _ _ _ _ _ _ _ _ H), <- (x_pend _ _ _ _ _ _ _ _ H), <- (x_top _ _ _ _ _ _ _ _ H),
+    <- (x_bot _ _ _ _ _ _ _ _ H), <- (x_sctx _ _ _ _ _ _ _ _ H), <- (x_asctx _ _ _ _ _ _ _ _ H),
+    <- (x_xtw _ _ _ _ _ _ _ _ H), (x_sl1 _ _ _ _ _ _ _ _ H), (x_sl2 _ _ _ _ _ _ _ _ H), EL.
   reflexivity.
 Qed.
 
@@ -1296,9 +1451,9 @@ Proof.
   unfold view, sb_len in *. psimpl. rewrite skipn_length, skipn_add. f_equal. lia.
 Qed.
 
-Lemma final_C12 Da a b : Rx false None None [] Da a b -> Robs (flushed a) (flushed b).
+Lemma final_C12 Da a b : Rx false false None None [] Da a b -> Robs (flushed a) (flushed b).
 Proof.
-  intros H. pose proof (x_buf _ _ _ _ _ _ _ H) as Hb. pose proof (x_other _ _ _ _ _ _ _ H) as Ho.
+  intros H. pose proof (x_buf _ _ _ _ _ _ _ _ H) as Hb. pose proof (x_other _ _ _ _ _ _ _ _ H) as Ho.
   constructor.
   - change (scal (flushed a)) with (scal a). change (scal (flushed b)) with (scal b).
     eapply Rx_scal; [reflexivity|exact H].
@@ -1310,32 +1465,41 @@ Proof.
     cbn [lim_sel Dsel bt_other] in Ho. destruct Ho as [g_lines g_len g_c1 g_r1 g_c2 g_r2 g_l1 g_l2 g_trim].
     constructor; try congruence.
     + exact g_lines.
-    + intros _. rewrite g_l1, g_l2, (x_sl1 _ _ _ _ _ _ _ H), (x_sl2 _ _ _ _ _ _ _ H). reflexivity.
+    + intros _. rewrite g_l1, g_l2, (x_sl1 _ _ _ _ _ _ _ _ H), (x_sl2 _ _ _ _ _ _ _ _ H). reflexivity.
   - change (active (flushed a)) with (active a). intros EA. rewrite EA in Hb.
     cbn [lim_sel Dsel bt_other] in Hb. unfold flushed. psimpl.
     rewrite !gc_excess_unlimited.
     + cbn [skipn]. exact (g_lines _ _ _ _ _ _ _ _ Hb).
-    + rewrite (g_l2 _ _ _ _ _ _ _ _ Hb), (x_sl2 _ _ _ _ _ _ _ H). reflexivity.
-    + rewrite (g_l1 _ _ _ _ _ _ _ _ Hb), (x_sl1 _ _ _ _ _ _ _ H). reflexivity.
+    + rewrite (g_l2 _ _ _ _ _ _ _ _ Hb), (x_sl2 _ _ _ _ _ _ _ _ H). reflexivity.
+    + rewrite (g_l1 _ _ _ _ _ _ _ _ Hb), (x_sl1 _ _ _ _ _ _ _ _ H). reflexivity.
 Qed.
 
-(** the relation holds between a well-formed terminal and itself, provided the parked buffer
-    has the terminal's geometry (no resize happened while it was parked) *)
+(** the relation holds between a well-formed terminal and itself, provided the parked PRIMARY
+    buffer (if any) has the terminal's geometry: no resize happened while it was parked.
+    (A parked ALTERNATE buffer may well have a stale geometry - it is never read.) *)
+Definition parked_ok (t : term) : Prop :=
+  active t = Alternate -> bcols (other t) = cols t /\ brows (other t) = rows t.
+
+(** the stronger, unconditional form used in the first version of this file *)
 Definition parked_geom (t : term) : Prop := bcols (other t) = cols t /\ brows (other t) = rows t.
 
-Lemma Rx_refl tr t : TInv t -> parked_geom t -> Rx tr (sb_limit t) (sb_limit t) [] [] t t.
+Lemma parked_geom_ok t : parked_geom t -> parked_ok t.
+Proof. intros H _. exact H. Qed.
+
+Lemma Rx_refl tr cl t : TInv t -> parked_ok t -> Rx tr cl (sb_limit t) (sb_limit t) [] [] t t.
 Proof.
-  intros HT [Hpc Hpr]. pose proof (ti_limit _ HT) as HL.
+  intros HT HP. pose proof (ti_limit _ HT) as HL.
   assert (Hn : forall w, Dsel [] [] w = []) by (intros []; reflexivity).
-  constructor; try reflexivity; try apply leq_refl; try apply HT; rewrite Hn.
-  - constructor; try reflexivity; try apply leq_refl; try apply HT.
+  constructor; try reflexivity; try apply leq_refl; try apply HT.
+  - rewrite Hn. constructor; try reflexivity; try apply leq_refl; try apply HT.
     + cbn [length]. lia.
     + destruct (active t); apply HL.
     + destruct (active t); apply HL.
-  - constructor; try reflexivity; try apply leq_refl; try assumption.
-    + cbn [length]. lia.
-    + destruct (active t); apply HL.
-    + destruct (active t); apply HL.
+  - destruct (active t) eqn:EA.
+    + intros _. cbn [length]. rewrite chop_0. split; [reflexivity|lia].
+    + destruct (HP EA) as [Hpc Hpr]. destruct HL as [_ HL2].
+      constructor; try reflexivity; try apply leq_refl; try assumption. cbn [length]. lia.
+  - destruct cl, (active t); reflexivity.
 Qed.
 
 Lemma feed_str_inv v s v' o :
@@ -1346,7 +1510,7 @@ Proof.
 Qed.
 
 Theorem C12_chunks : forall v s1 s2 va oa v1 o1 vb ob,
-  TInv (vterm v) -> parked_geom (vterm v) -> sb_limit (vterm v) = None ->
+  TInv (vterm v) -> parked_ok (vterm v) -> sb_limit (vterm v) = None ->
   feed_str v (s1 ++ s2) = Ok (va, oa) ->
   feed_str v s1 = Ok (v1, o1) -> feed_str v1 s2 = Ok (vb, ob) ->
   vparser va = vparser vb /\ Robs (vterm va) (vterm vb) /\ sb_limit (vterm va) = None.
@@ -1357,18 +1521,18 @@ Proof.
   rewrite feed_chars_app, F1 in FA. cbn [bind] in FA.
   apply vt_flush_inv in GA, G1, G2.
   destruct GA as (PA & TA & _). destruct G1 as (P1 & T1 & _). destruct G2 as (P2 & T2 & _).
-  pose proof (Rx_refl false _ HT HP) as H0. rewrite HL in H0.
+  pose proof (Rx_refl false false _ HT HP) as H0. rewrite HL in H0.
   (* s1 on both sides: the same run *)
-  pose proof (feed_chars_Rx0 false None None s1 [] v v (conj eq_refl H0)) as R1.
+  pose proof (feed_chars_Rx0 false false None None s1 [] v v (conj eq_refl H0)) as R1.
   rewrite F1 in R1. inversion R1 as [x y (Da1 & Hp1 & Hx1) Ex Ey|]; subst x y.
   (* the mid-string flush, right-hand side only *)
   destruct (flush_right_C12 _ _ _ Hx1) as (Da2 & Hx2). rewrite <- T1 in Hx2.
   (* s2 *)
-  assert (Hv : Rvx false None None [] Da2 u1 v1) by (split; [congruence|exact Hx2]).
-  pose proof (feed_chars_Rx0 false None None s2 Da2 u1 v1 Hv) as R2.
+  assert (Hv : Rvx false false None None [] Da2 u1 v1) by (split; [congruence|exact Hx2]).
+  pose proof (feed_chars_Rx0 false false None None s2 Da2 u1 v1 Hv) as R2.
   rewrite FA, F2 in R2. inversion R2 as [x y (Da3 & Hp3 & Hx3) Ex Ey|]; subst x y.
   split; [congruence|]. split; [rewrite TA, T2; eapply final_C12; exact Hx3|].
-  rewrite TA. exact (x_sl1 _ _ _ _ _ _ _ Hx3).
+  rewrite TA. exact (x_sl1 _ _ _ _ _ _ _ _ Hx3).
 Qed.
 
 Print Assumptions C12_chunks.
@@ -1394,9 +1558,9 @@ Fixpoint session_ris_free (v : vt) (ss : list (list N)) : Prop :=
   end.
 
 Lemma session_Rx L ss : forall Dp vI vL vI' outsI vL' outsL,
-  Rvx true None L Dp [] vI vL -> session_ris_free vI ss ->
+  Rvx true false None L Dp [] vI vL -> session_ris_free vI ss ->
   run_session vI ss = Ok (vI', outsI) -> run_session vL ss = Ok (vL', outsL) ->
-  Rvx true None L (Dp ++ concat (map o_drained outsL)) [] vI' vL'
+  Rvx true false None L (Dp ++ concat (map o_drained outsL)) [] vI' vL'
   /\ concat (map o_drained outsI) = [].
 Proof.
   induction ss as [|s ss IH]; intros Dp vI vL vI' outsI vL' outsL H HF EI EL; cbn [run_session] in EI, EL.
@@ -1411,26 +1575,27 @@ Proof.
     pose proof FI as FI'. pose proof FL as FL'.
     apply feed_str_inv in FI', FL'.
     destruct FI' as (cI & CI & GI). destruct FL' as (cL & CL & GL).
-    pose proof (feed_chars_Rx_nr true None L Dp s vI vL H HF1) as HR. rewrite CI, CL in HR.
+    pose proof (feed_chars_Rx_nr true false None L Dp s vI vL H HF1) as HR. rewrite CI, CL in HR.
     inversion HR as [x y [Hp Hx] Ex Ey|]; subst x y.
     apply vt_flush_inv in GI, GL. destruct GI as (PI & TI & DI). destruct GL as (PL & TL & DL).
     pose proof (flush_C14 _ _ _ _ Hx) as Hf. rewrite <- TI, <- TL in Hf.
-    rewrite (x_active _ _ _ _ _ _ _ Hx) in Hf. rewrite <- DL in Hf.
-    assert (Hu : Rvx true None L (Dp ++ o_drained oL) [] uI uL) by (split; [congruence|exact Hf]).
+    rewrite (x_active _ _ _ _ _ _ _ _ Hx) in Hf. rewrite <- DL in Hf.
+    assert (Hu : Rvx true false None L (Dp ++ o_drained oL) [] uI uL) by (split; [congruence|exact Hf]).
     destruct (IH _ _ _ _ _ _ _ Hu HF2 RI RL) as [IH1 IH2].
     cbn [map concat]. rewrite app_assoc. split; [exact IH1|].
     rewrite IH2, app_nil_r, DI.
     destruct (active (vterm cI)) eqn:EA; [|reflexivity].
-    pose proof (x_buf _ _ _ _ _ _ _ Hx) as Hb. rewrite EA in Hb. cbn [lim_sel] in Hb.
+    pose proof (x_buf _ _ _ _ _ _ _ _ Hx) as Hb. rewrite EA in Hb. cbn [lim_sel] in Hb.
     rewrite gc_excess_unlimited; [reflexivity|].
-    rewrite (g_l1 _ _ _ _ _ _ _ _ Hb), (x_sl1 _ _ _ _ _ _ _ Hx). reflexivity.
+    rewrite (g_l1 _ _ _ _ _ _ _ _ Hb), (x_sl1 _ _ _ _ _ _ _ _ Hx). reflexivity.
 Qed.
 
-Lemma Rx_new tr c r L : Rx tr None L [] [] (term_new_gen c r None) (term_new_gen c r L).
+Lemma Rx_new tr cl c r L : Rx tr cl None L [] [] (term_new_gen c r None) (term_new_gen c r L).
 Proof.
   unfold term_new_gen. constructor; psimpl; try reflexivity; try apply leq_refl.
   - cbn [lim_sel Dsel]. apply buffer_new_G.
-  - cbn [lim_sel Dsel bt_other]. apply (buffer_new_G tr c r (Some 0%N) (Some 0%N)).
+  - intros _. cbn [length]. rewrite chop_0. split; [reflexivity|lia].
+  - destruct cl; reflexivity.
 Qed.
 
 (** C14: the lines drained over a session with limit [L], followed by the final [lines],
@@ -1443,11 +1608,11 @@ Theorem C14_stream : forall c r L ss vI outsI vL outsL,
   concat (map o_drained outsL) ++ lines (buf (vterm vL)) = lines (buf (vterm vI)).
 Proof.
   intros c r L ss vI outsI vL outsL HF EI EL HA.
-  assert (H0 : Rvx true None (Some L) [] [] (vt_new c r None) (vt_new c r (Some L))).
+  assert (H0 : Rvx true false None (Some L) [] [] (vt_new c r None) (vt_new c r (Some L))).
   { split; [reflexivity|apply Rx_new]. }
   destruct (session_Rx _ _ _ _ _ _ _ _ _ H0 HF EI EL) as [[_ H] _]. cbn [app] in H.
-  pose proof (x_buf _ _ _ _ _ _ _ H) as Hb.
-  rewrite (x_active _ _ _ _ _ _ _ H), HA in Hb. cbn [Dsel] in Hb.
+  pose proof (x_buf _ _ _ _ _ _ _ _ H) as Hb.
+  rewrite (x_active _ _ _ _ _ _ _ _ H), HA in Hb. cbn [Dsel] in Hb.
   symmetry. exact (g_lines _ _ _ _ _ _ _ _ Hb).
 Qed.
 
@@ -1470,7 +1635,7 @@ Theorem unlimited_never_drains : forall c r ss vI outsI,
   concat (map o_drained outsI) = [].
 Proof.
   intros c r ss vI outsI HF EI.
-  assert (H0 : Rvx true None None [] [] (vt_new c r None) (vt_new c r None)).
+  assert (H0 : Rvx true false None None [] [] (vt_new c r None) (vt_new c r None)).
   { split; [reflexivity|apply Rx_new]. }
   exact (proj2 (session_Rx _ _ _ _ _ _ _ _ _ H0 HF EI EI)).
 Qed.
@@ -1502,7 +1667,7 @@ Proof.
 Qed.
 
 Corollary C12_chunks_holds : forall v s1 s2 va oa v1 o1 vb ob,
-  TInv (vterm v) -> parked_geom (vterm v) -> sb_limit (vterm v) = None ->
+  TInv (vterm v) -> parked_ok (vterm v) -> sb_limit (vterm v) = None ->
   feed_str v (s1 ++ s2) = Ok (va, oa) ->
   feed_str v s1 = Ok (v1, o1) -> feed_str v1 s2 = Ok (vb, ob) ->
   holds_C12 va vb = true.
@@ -1533,31 +1698,43 @@ Definition kP (t : term) (k k' : nat) : nat :=
 Lemma firstn_len_le {A} k (l : list A) : k <= length l -> length (firstn k l) = k.
 Proof. intros H. rewrite firstn_length. lia. Qed.
 
-Lemma Rx_chop2 t k k' :
-  TInv t -> parked_geom t -> k <= sb_len (buf t) -> k' <= sb_len (other t) ->
-  Rx true (sb_limit t) (sb_limit t)
+Lemma RBg_weaken tr c r l1 l2 D b1 b2 : RBg true c r l1 l2 D b1 b2 -> RBg tr c r l1 l2 D b1 b2.
+Proof. intros [H1 H2 H3 H4 H5 H6 H7 H8 H9]. constructor; try assumption. intros _. exact (H9 eq_refl). Qed.
+
+Lemma Rx_chop2 tr cl t k k' :
+  TInv t -> parked_ok t -> k <= sb_len (buf t) -> k' <= sb_len (other t) ->
+  Rx tr cl (sb_limit t) (sb_limit t)
      (match active t with Primary => firstn k (lines (buf t)) | Alternate => firstn k' (lines (other t)) end)
      (match active t with Primary => firstn k' (lines (other t)) | Alternate => firstn k (lines (buf t)) end)
      t (chop2 k k' t).
 Proof.
-  intros HT [Hpc Hpr] Hk Hk'. pose proof (ti_limit _ HT) as HL.
-  pose proof (RBg_chop (buf t) k Hk) as Hb. pose proof (RBg_chop (other t) k' Hk') as Ho.
-  rewrite (ti_bcols _ HT), (ti_brows _ HT) in Hb. rewrite Hpc, Hpr in Ho.
+  intros HT HP Hk Hk'. pose proof (ti_limit _ HT) as HL.
+  pose proof (RBg_weaken tr _ _ _ _ _ _ _ (RBg_chop (buf t) k Hk)) as Hb.
+  pose proof (RBg_weaken tr _ _ _ _ _ _ _ (RBg_chop (other t) k' Hk')) as Ho.
+  rewrite (ti_bcols _ HT), (ti_brows _ HT) in Hb.
   unfold chop2. constructor; psimpl; try reflexivity; try apply leq_refl; try apply HT.
   - destruct (active t); cbn [lim_sel Dsel]; destruct HL as [E1 E2]; rewrite E1 in Hb; exact Hb.
-  - destruct (active t); cbn [lim_sel Dsel bt_other]; destruct HL as [E1 E2]; rewrite E2 in Ho; exact Ho.
+  - destruct (active t) eqn:EA.
+    + intros _. unfold sb_len in Hk'. rewrite firstn_len_le by lia. split; [reflexivity|exact Hk'].
+    + destruct (HP EA) as [Hpc Hpr]. destruct HL as [E1 E2]. rewrite Hpc, Hpr, E2 in Ho. exact Ho.
+  - destruct cl, (active t); reflexivity.
 Qed.
 
 Lemma Rx_chop2_inv L Dp Da a b :
-  Rx true L L Dp Da a b ->
+  Rx true false L L Dp Da a b ->
   b = chop2 (length (Dsel Dp Da (active a))) (length (Dsel Dp Da (bt_other (active a)))) a.
 Proof.
-  intros H. pose proof (x_buf _ _ _ _ _ _ _ H) as Hb. pose proof (x_other _ _ _ _ _ _ _ H) as Ho.
-  rewrite (x_sl1 _ _ _ _ _ _ _ H), (x_sl2 _ _ _ _ _ _ _ H) in Hb, Ho.
-  apply RBg_chop_inv in Hb, Ho.
-  pose proof (x_dirty _ _ _ _ _ _ _ H eq_refl) as Hd.
-  pose proof (x_sl1 _ _ _ _ _ _ _ H) as S1. pose proof (x_sl2 _ _ _ _ _ _ _ H) as S2.
-  destruct H. unfold chop2. rewrite <- Hb, <- Ho. destruct a, b. cbn in *. subst. reflexivity.
+  intros H. pose proof (x_buf _ _ _ _ _ _ _ _ H) as Hb. pose proof (x_other _ _ _ _ _ _ _ _ H) as Ho.
+  rewrite (x_sl1 _ _ _ _ _ _ _ _ H), (x_sl2 _ _ _ _ _ _ _ _ H) in Hb, Ho.
+  apply RBg_chop_inv in Hb.
+  assert (Ho' : other b = chop (length (Dsel Dp Da (bt_other (active a)))) (other a)).
+  { destruct (active a); cbn [Dsel bt_other].
+    - exact (proj1 (Ho eq_refl)).
+    - apply RBg_chop_inv in Ho. exact Ho. }
+  pose proof (x_dirty _ _ _ _ _ _ _ _ H eq_refl) as Hd.
+  pose proof (x_sl1 _ _ _ _ _ _ _ _ H) as S1. pose proof (x_sl2 _ _ _ _ _ _ _ _ H) as S2.
+  pose proof (x_asctx _ _ _ _ _ _ _ _ H) as Hs. cbn iota in Hs.
+  destruct H. unfold chop2. rewrite <- Hb, <- Ho'. destruct a, b. cbn in *. subst. reflexivity.
 Qed.
 
 (** Every control function commutes with chopping rows above the views of the two buffers.
@@ -1565,19 +1742,24 @@ Qed.
     both buffers); the alternate buffer's count is reset when a fresh alternate buffer is
     created.  [Xtwinops] needs no exclusion: [xtw] is never set ([ti_xtw]). *)
 Theorem execute_chop : forall t f k k' t',
-  TInv t -> parked_geom t -> k <= sb_len (buf t) -> k' <= sb_len (other t) ->
+  TInv t -> parked_ok t -> k <= sb_len (buf t) -> k' <= sb_len (other t) ->
   execute t f = Ok t' ->
   exists k1 k1', execute (chop2 k k' t) f = Ok (chop2 k1 k1' t')
     /\ k1 <= sb_len (buf t') /\ k1' <= sb_len (other t')
     /\ (is_ris f = false -> kP t' k1 k1' = kP t k k').
 Proof.
   intros t f k k' t' HT HP Hk Hk' E.
-  pose proof (execute_Rx _ _ _ _ _ _ _ f (Rx_chop2 t k k' HT HP Hk Hk')) as HR.
+  pose proof (execute_Rx _ _ _ _ _ _ _ _ f (Rx_chop2 true false t k k' HT HP Hk Hk')) as HR.
   rewrite E in HR. inversion HR as [x y (Da' & _ & Hxy) Ex Ey|]; subst x.
   pose proof (Rx_chop2_inv _ _ _ _ _ Hxy) as Ey'.
   eexists _, _. split; [rewrite <- Ey'; reflexivity|].
-  pose proof (g_len _ _ _ _ _ _ _ _ (x_buf _ _ _ _ _ _ _ Hxy)) as L1.
-  pose proof (g_len _ _ _ _ _ _ _ _ (x_other _ _ _ _ _ _ _ Hxy)) as L2.
+  pose proof (g_len _ _ _ _ _ _ _ _ (x_buf _ _ _ _ _ _ _ _ Hxy)) as L1.
+  assert (L2 : length (Dsel (if is_ris f then [] else match active t with
+                 | Primary => firstn k (lines (buf t)) | Alternate => firstn k' (lines (other t)) end)
+                 Da' (bt_other (active t'))) <= sb_len (other t')).
+  { pose proof (x_other _ _ _ _ _ _ _ _ Hxy) as Ho. destruct (active t'); cbn [Dsel bt_other].
+    - exact (proj2 (Ho eq_refl)).
+    - exact (g_len _ _ _ _ _ _ _ _ Ho). }
   split; [exact L1|]. split; [exact L2|].
   intros Hr. rewrite Hr in *. unfold kP, sb_len in *.
   destruct (active t'), (active t); cbn [Dsel bt_other]; apply firstn_len_le; lia.
